@@ -187,8 +187,9 @@ def check(prop, ev, bounds=None, cvc5_cross=False):
         try:
             import typeflowlemmas
             fo, ff = typeflowlemmas.function_call(S, bounds or {"block": 3, "array": 2})
-            obls = obls + fo
-            fns = sorted(set(fns) | set(ff))
+            ao, af = typeflowlemmas.assignment(S)
+            obls = obls + fo + ao
+            fns = sorted(set(fns) | set(ff) | set(af))
         except Unencodable as e:
             inconc.append(f"unencodable (FunctionCall type-state flow lemma): {e}")
     ev.cov["functions_encoded"] = [f"{n} [mir sha256:{h}]" for n, h in fns]
@@ -234,6 +235,9 @@ def check(prop, ev, bounds=None, cvc5_cross=False):
             elif role.endswith(":closure-body-effects-reach-the-state"):
                 import typeflowlemmas
                 res = [(a, b, {}) for a, b in typeflowlemmas.closure_battery()]
+            elif role.endswith(":state-follows-the-runtime-stores"):
+                import typeflowlemmas
+                res = [(a, b, {}) for a, b in typeflowlemmas.assignment_battery()]
             elif role.endswith(":state-follows-the-runtime-paths"):
                 import typeflowlemmas
                 res = [(a, b, {}) for a, b in typeflowlemmas.battery()]
